@@ -45,7 +45,7 @@ class BeginGroup(PintParsedStatement):
         if not s.startswith("@group"):
             return None
 
-        r = cls._header_re.search(s)
+        r = cls._header_re.fullmatch(s.strip())
 
         if r is None:
             return common.DefinitionSyntaxError(f"Invalid Group header syntax: '{s}'")
